@@ -79,7 +79,8 @@ class UserMove(Strict):
             atoms.set_cell(atoms.cell.array * act[1], scale_atoms=True)
             return [1]
         if act[0] == "shift":
-            atoms.positions[0] += 0.01
+            if len(atoms):          # (the shipped exchange move of the same table may have emptied the box)
+                atoms.positions[0] += 0.01
             return True
         if act[0] == "ret":
             return {"True": True, "1": 1, "x": "x", "[0]": [0], "False": False, "0": 0, "None": None, "": "", "[]": []}[act[1]]
